@@ -202,7 +202,8 @@ def run_batch(pid, verif_seed, n_runs, workers, wall_cap, want_digests=False, st
                 break
     else:
         ctx = multiprocessing.get_context("fork")
-        with ProcessPoolExecutor(max_workers=workers, mp_context=ctx) as ex:
+        ex = ProcessPoolExecutor(max_workers=workers, mp_context=ctx)
+        try:
             futs = [ex.submit(_work, (pid, verif_seed, c, want_digests)) for c in chunks]
             for f in futs:
                 left = wall_cap - (time.perf_counter() - t0)
@@ -220,9 +221,12 @@ def run_batch(pid, verif_seed, n_runs, workers, wall_cap, want_digests=False, st
             if cut:
                 for p in list(getattr(ex, "_processes", {}).values()):
                     try:
-                        p.terminate()
+                        p.kill()
                     except Exception:  # noqa
                         pass
+        finally:
+            # never wait for workers that were cut off (or for a stray child of theirs holding a pipe open)
+            ex.shutdown(wait=not cut, cancel_futures=True)
     m = merge(aggs)
     m["wall"] = time.perf_counter() - t0
     m["cut"] = cut
